@@ -108,6 +108,15 @@ fn scenarios(r: &mut Rng, n: usize) -> Vec<Scenario> {
     let mut t3 = vec![vec![0x16, 3, 1, 0xff, 0xfb, 1, 0, 0xff, 0xf7]];
     t3.extend(junk(r, n, seglen));
     out.push(Scenario { name: "tls-huge-declared", an: An::Tls, segs: mk_stream(c, st, false, t3, vec![]) });
+    // TLS: a complete handshake record whose ClientHello body does not parse (the reader returns an error and keeps
+    // its buffer; the flow must be dropped), then endless data on the same 4-tuple (seeded change C11e-2)
+    {
+        let mut rec = vec![0x16, 3, 1, 0, 14, 1, 0, 0, 10, 3, 3, 0, 0, 0, 0, 0, 0, 0, 0];
+        rec.extend(r.bytes(0));
+        let mut t5 = vec![rec];
+        t5.extend(junk(r, n, seglen));
+        out.push(Scenario { name: "tls-malformed-hello-then-data", an: An::Tls, segs: mk_stream(c, st, false, t5, vec![]) });
+    }
     // TLS: endless sequence of small non-hello handshake records
     let t4: Vec<Vec<u8>> = (0..n).map(|_| vec![0x16, 3, 3, 0, 4, 0, 0, 0, 0]).collect();
     out.push(Scenario { name: "tls-many-records", an: An::Tls, segs: mk_stream(c, st, false, t4, vec![]) });
